@@ -910,3 +910,22 @@ seed("n-c09-qmr-exits-joined", "C09", SP, """            if rho == 0.0 { return 
 """, "SILENT", "neutral: the two breakdown tests of the loop top joined")
 seed("n-c09-qmr-eta-regrouped", "C09", SP, "            eta = -eta * rho_1 * gamma * gamma / ( beta * gamma_1 * gamma_1 );", "            eta = -( eta * rho_1 / beta ) * ( gamma / gamma_1 ) * ( gamma / gamma_1 );", "SILENT", "neutral: the same rational function, regrouped")
 seed("n-c09-cg-beta-named", "C09", SP, "                beta = rho / rho_1;\n                p = z.clone() + p.clone() * beta;", "                p = z.clone() + p.clone() * ( rho / rho_1 );", "SILENT", "neutral: beta inlined")
+
+# ---------------------------------------------------------------- rules added for the round-7 mutants
+seed("c01-singular-guard", "C01", SV, '        if self.rows != b.size() { panic!( "solve_basic error: rows != b.size()" ); }',
+     '        if self.rows != b.size() { panic!( "solve_basic error: rows != b.size()" ); }\n        if self.determinant() == T::zero() { panic!( "solve_basic error: matrix is singular" ); }',
+     "rejects-only-shapes/solve_basic")
+seed("n-c01-asserts", "C01", SV, '        if self.rows != b.size() { panic!( "solve_basic error: rows != b.size()" ); }',
+     '        assert_eq!( self.rows, b.size(), "solve_basic error: rows != b.size()" );', "SILENT", "neutral: the shape check as assert_eq!")
+seed("c12-early-ok-le", "C12", PA, "        let mut r = self.clone();\n        const MAX", "        let mut r = self.clone();\n        if self.size() <= v.size() { return Ok( ( q, r ) ); }\n        const MAX", "early-ok")
+seed("n-c12-early-ok-lt", "C12", PA, "        let mut r = self.clone();\n        const MAX", "        let mut r = self.clone();\n        if self.size() < v.size() { return Ok( ( q, r ) ); }\n        const MAX", "SILENT",
+     "neutral: deg u < deg v leaves nothing to eliminate")
+seed("c16-aliased-fast-path", "C16", VF, '        if self.size() != w.size() { panic!( "Vector sizes do not agree dot()." ); }\n        let num_threads = num_cpus::get();',
+     '        if self.size() != w.size() { panic!( "Vector sizes do not agree dot()." ); }\n        if std::ptr::eq( self, w ) { return self.norm_2().powi( 2 ); }\n        let num_threads = num_cpus::get();', "no-fast-path")
+seed("n-c16-empty-return", "C16", VF, '        if self.size() != w.size() { panic!( "Vector sizes do not agree dot()." ); }\n        let num_threads = num_cpus::get();',
+     '        if self.size() != w.size() { panic!( "Vector sizes do not agree dot()." ); }\n        if self.size() == 0 { return 0.0; }\n        let num_threads = num_cpus::get();', "SILENT", "neutral: the empty sum")
+seed("c10-laguer-absolute-stop", "C10", PM, "            if b.abs() <= err { return; }", "            if b.abs() <= err { return; }\n            if b.abs() < EPS { return; }", "scale-free-stops/laguer")
+seed("c19-output-no-blank", "C19", ME1, '            write!( f, "{number:.prec$} ", prec = precision, number = self.nodes[ i ] ).unwrap();',
+     '            write!( f, "{number:>12.prec$}", prec = precision, number = self.nodes[ i ] ).unwrap();', "io-separated")
+seed("n-c19-output-tab", "C19", ME1, '                write!( f, "{number:.prec$} ", prec = precision, number = self.vars[ i ][ var ] ).unwrap();',
+     '                write!( f, "{number:.prec$}\\t", prec = precision, number = self.vars[ i ][ var ] ).unwrap();', "SILENT", "neutral: a tab is white space too")
